@@ -174,6 +174,7 @@ def run(ctx):
     from .genslicers import check_generated_slicers
     check_generated_slicers(ctx)           # the definitions regenerated from the source (Generated/Slicers.lean) vs the real code
     from .gendefocus import check_generated_defocus; check_generated_defocus(ctx)   # Generated/Defocus.lean vs generate_2d_gaussian / add_defocus_blur
+    __import__('harness.props.genobjects', fromlist=['x']).check_loss_objects(ctx)   # regenerated loss OBJECTS vs /repo (work package 13)
 
 
 def replay(ctx, rep):
